@@ -153,6 +153,21 @@ func (s *sessionMetadatasState) ByClientID(clientID string) (api.SessionMetadata
 	}
 	return newest, nil
 }
+func (s *sessionMetadatasState) ByClientIDInMountPoint(mountPoint, clientID string) (api.SessionMetadatas, error) {
+	s.mu.Lock()
+	defer s.mu.Unlock()
+	matches := s.filter(func(s api.SessionMetadatas) bool { return s.ClientID == clientID && s.MountPoint == mountPoint })
+	if len(matches) == 0 {
+		return api.SessionMetadatas{}, ErrSessionMetadatasNotFound
+	}
+	newest := matches[0]
+	for _, md := range matches[1:] {
+		if md.LastAdded > newest.LastAdded {
+			newest = md
+		}
+	}
+	return newest, nil
+}
 func (s *sessionMetadatasState) ByPeer(peer uint64) []api.SessionMetadatas {
 	s.mu.Lock()
 	defer s.mu.Unlock()
